@@ -6,6 +6,7 @@ from typing import ClassVar
 from tree_sitter import Node
 
 from nix_manipulator.expressions.expression import TypedExpression
+from nix_manipulator.expressions.layout import point_column
 
 
 @dataclass(slots=True, repr=False)
@@ -40,7 +41,7 @@ class Comment(TypedExpression):
             if inner.endswith("*/"):
                 inner = inner[:-2]
             if "\n" in inner:
-                indent_prefix = " " * node.start_point.column
+                indent_prefix = " " * point_column(node.start_point)
                 lines = inner.split("\n")
                 # ... and one before the closer when it shares the last line.
                 lines[-1] = lines[-1].rstrip(" ")
